@@ -33,6 +33,16 @@ class V:
         return "<{}{}>".format(self.kind, self.n)
 
 
+class AwaitableV(V):
+    """A value to be REMEMBERED that happens to be awaitable (a future, a task): capturing it must not await it."""
+
+    __slots__ = ()
+
+    def __await__(self):  # type: ignore
+        return V("v", -999)
+        yield  # pragma: no cover
+
+
 class FaultExc(Exception):
     pass
 
@@ -593,6 +603,10 @@ class Runtime:
             return coro
         value = snp["val"] + (a if snp.get("byarg") else 0)
         _h.emit("cap.out", s, o, a, value, "ret")
+        if snp["rv"] == "avalue":
+            # the captured value itself is an awaitable object (not a coroutine): it is what OLD must hold
+            if not isinstance(_h.vals.get(value), AwaitableV):
+                _h.vals[value] = AwaitableV("v", value)
         return _h.val(value)
 
     async def cap_async(_h, s: int, owner: int, **kw: Any) -> Any:
